@@ -9,7 +9,7 @@
 # reference procedure; the snapshot only redirects the path dependency.
 set -u
 V="$(cd "$(dirname "$0")/.." && pwd)"
-SNAP=/tmp/vsnap; WT=/tmp/vrepo
+N="${SANDBOX_N:-}"; SNAP=/tmp/vsnap$N; WT=/tmp/vrepo$N
 copy() {
     mkdir -p "$SNAP"
     rsync -a --delete --exclude '/target*' --exclude '/harness/target' --exclude '/ffi-driver/target' --exclude '/evidence' \
